@@ -98,16 +98,16 @@ PROPS["C04"] = {
     "groups": [
         {"dir": "privval",
          "quick": ["VP_C04_Signer_k2", "VP_C04_Signer_k2_symts", "VP_C04_Signer_k2_crash1", "VP_C04_Signer_k2_ioerr"],
-         "thorough": ["VP_C04_Signer_k3_h2", "VP_C04_Signer_k2_crash1_symts", "VP_C04_Signer_k3_crash1", "VP_C04_Signer_k3_crash2", "VP_C04_Signer_k3_ioerr"]},
+         "thorough": ["VP_C04_Signer_k3", "VP_C04_Signer_k2_crash1_symts", "VP_C04_Signer_k2_crash2"]},
         {"dir": "consensus",
          "quick": ["VP_C02_Step_R1_timeout_lockfocus"],
          "thorough": ["VP_C02_Step_R1_timeout"]},
     ],
     "bounds": {
-        "signer (H1)": "real FilePV on the modelled file system; k = 2 (thorough 3) arbitrary requests: prevote / precommit / proposal, height 1 (thorough 1..2), round 0..1, block A/B/nil, two timestamps (or a symbolic timestamp travelling through the real sign-bytes codec), optional restart (LoadFilePV) after every request",
+        "signer (H1)": "real FilePV on the modelled file system; k = 2 (thorough 3, without crashes) arbitrary requests: prevote / precommit / proposal, height 1, round 0..1, block A/B/nil, two timestamps (or a symbolic timestamp travelling through the real sign-bytes codec), optional restart (LoadFilePV) after every request",
         "WAL before signing (H2)": "the consensus step harness (see C02) hands every input to a recording WAL unsynced, as the receive routine does; inside the signer, at every SignVote / SignProposal the WAL must have been flushed and synced (entries: timeouts; the proposer re-proposing its valid block is among them)",
         "write errors": "one write of the sign-state file fails with an error at any point (nothing reaches the file); the signer must not release a signature it could not record (it may die: the harness then restarts it from disk)",
-        "crashes": "one (thorough two) simulated crash at any file operation of the sign-state save (create, write with a torn prefix, rename, remove), surviving prefix of an unsynced tail chosen at reboot, then LoadFilePV on what survived",
+        "crashes": "one (thorough two, k = 2) simulated crash at any file operation of the sign-state save (create, write with a torn prefix, rename, remove), surviving prefix of an unsynced tail chosen at reboot, then LoadFilePV on what survived",
     },
     "stubs": ["file system model (symgo/vfs.go): O_SYNC writes durable, rename/remove atomic and durable", "tmjson = identity on Go values with an opaque token (a torn token does not decode)", "ed25519 ideal when sign bytes are symbolic, real otherwise"],
     "outside": ["remote signers (privval/signer_*)", "directory-entry reordering across rename", "crash between signing and the WAL write of the own message followed by replay (covered only through the signer refusing conflicting requests)"],
